@@ -89,10 +89,10 @@ PROPS = {
         "quick_runs": 16000, "thorough_runs": 250000, "seed": 12000001,
         "rule": "C12 programs: 3-60 canary tasks in waves (so that thread objects and stacks are recycled) over the four stack classes "
                 "with drawn sizes (guard pages on/off); each recurses to a drawn fraction of its usable stack filling every frame with a "
-                "pattern, keeps integer and floating point locals, task-local data and (one task in three) a non-default floating-point rounding mode (MXCSR and x87 control word) live across 0-5 yields at the deepest point, "
+                "pattern, keeps integer and floating point locals, task-local data and (one task in three) a non-default floating-point control state (rounding mode in MXCSR and x87 control word, or only the x87 control word: rounding and precision control, with and without pending SSE exception flags) live across 0-5 yields at the deepest point, "
                 "and may leave 'dirt' (interruption disabled, an undelivered interruption request, an exit callback) for the next user of its thread object; "
                 "one task in four creates a child with thread_stacksize::current, which must run on (and be able to use) a stack of its creator's class.",
-        "required_probes": ["resumed_on_another_worker", "left_interruption_disabled", "left_interruption_requested", "canary_tasks", "fp_mode_kept_across_yield", "child_with_current_stacksize"],
+        "required_probes": ["resumed_on_another_worker", "left_interruption_disabled", "left_interruption_requested", "canary_tasks", "fp_mode_kept_across_yield", "x87_only_mode_kept_across_yield", "child_with_current_stacksize"],
     },
     "C20": {
         "quick_runs": 16000, "thorough_runs": 250000, "seed": 20000001,
